@@ -132,5 +132,24 @@ pub fn run(o: &Opts) -> Report {
         let model = driver_batch(&o.driver, &reqs, o.par);
         for ((req, m), i) in reqs.iter().zip(model.iter()).zip(impls.iter()) { if m != i { rep.disagree("parse", req, m, i); } }
     }
+    {
+        use crate::pcorr::*;
+        use clap::parser::ValueSource;
+        // an `exclusive` arg that is present only through a default (explicit or the implied `false`) excludes nothing
+        let mk = |dflt: bool| { let mut c = CmdS { name: "prog".into(), ..Default::default() };
+            let mut ex = ArgS { id: "ex".into(), long: Some("ex".into()), exclusive: true, ..Default::default() };
+            if dflt { ex.action = Some("set"); ex.default_vals = vec!["d".into()]; } else { ex.action = Some("setTrue"); }
+            c.args.push(ex);
+            c.args.push(ArgS { id: "aa".into(), long: Some("aa".into()), action: Some("set"), ..Default::default() });
+            c.args.push(ArgS { id: "bb".into(), long: Some("bb".into()), action: Some("set"), env: Some(Some("envb".into())), ..Default::default() });
+            c.args.push(ArgS { id: "cc".into(), short: Some('c'), action: Some("count"), ..Default::default() }); c };
+        let mut cases: Vec<(CmdS, Vec<Vec<u8>>, Expect)> = vec![];
+        for d in [false, true] {
+            cases.push((mk(d), bv(&["prog", "--aa", "1", "--bb", "2"]), Box::new(|m| { want_source(m, "ex", Some(ValueSource::DefaultValue))?; want_source(m, "aa", Some(ValueSource::CommandLine)) })));
+            cases.push((mk(d), bv(&["prog", "--aa", "1", "-cc"]), Box::new(|m| { want_source(m, "ex", Some(ValueSource::DefaultValue))?; want_source(m, "bb", Some(ValueSource::EnvVariable)) })));
+        }
+        run_expect(&mut rep, o, "defaulted-exclusive-arg-rejects-others", cases);
+    }
+    crate::pcorr::run_generic(&mut rep, o, 0xC06);
     rep
 }
